@@ -171,6 +171,8 @@ macro "ch_close" : tactic => `(tactic| first | rfl | (simp [*]; done) | (simp [*
 @[simp] theorem time_setCH : (setCH s h t).time = s.time := rfl
 @[simp] theorem index_setCH : (setCH s h t).index = s.index := rfl
 @[simp] theorem blockTxs_setCH : (setCH s h t).blockTxs = s.blockTxs := rfl
+@[simp] theorem bal2_setCH : (setCH s h t).bal2 = s.bal2 := rfl
+@[simp] theorem supply2_setCH : (setCH s h t).supply2 = s.supply2 := rfl
 @[simp] theorem cHeight_setCH : (setCH s h t).cHeight = h := rfl
 @[simp] theorem cTime_setCH : (setCH s h t).cTime = t := rfl
 
@@ -191,6 +193,15 @@ macro "ch_close" : tactic => `(tactic| first | rfl | (simp [*]; done) | (simp [*
     send (setCH s h t) src dst amt = (send s src dst amt).map (setCH · h t) := by
   unfold send
   simp only [balOf_setCH, setBal_setCH]
+  split <;> ch_close
+
+@[simp] theorem balOf2_setCH (a : Addr) : balOf2 (setCH s h t) a = balOf2 s a := rfl
+@[simp] theorem setBal2_setCH (a : Addr) (x : Int) : setBal2 (setCH s h t) a x = setCH (setBal2 s a x) h t := rfl
+
+@[simp] theorem send2_setCH (src dst : Addr) (amt : Int) :
+    send2 (setCH s h t) src dst amt = (send2 s src dst amt).map (setCH · h t) := by
+  unfold send2
+  simp only [balOf2_setCH, setBal2_setCH]
   split <;> ch_close
 
 @[simp] theorem mint_setCH (a : Addr) (amt : Int) : mint (setCH s h t) a amt = setCH (mint s a amt) h t := rfl
@@ -237,39 +248,41 @@ macro "ch_step" : tactic =>
 macro "ch_auto" : tactic => `(tactic| repeat' (first | rfl | ch_step))
 
 /-- a state with an empty check-state header -/
-def mk0 (x_bal : List (Addr × Int)) (x_supply : Int) (x_vals : List (Addr × Val)) (x_idx : List (Int × Addr)) (x_prev : List (Addr × Int)) (x_prevTot : Int) (x_queue : List (Int × List Addr)) (x_sign : List (Addr × Sign)) (x_missedBits : List ((Addr × Int) × Bool)) (x_awards : List (Addr × Int)) (x_burns : List (Addr × Int)) (x_proposer : Addr) (x_rel : List Addr) (x_p : Params) (x_acl : List (String × Addr)) (x_daoOwner : Addr) (x_pool : Addr) (x_feeAcc : Addr) (x_posAcc : Addr) (x_daoAcc : Addr) (x_keys : List (Nat × Addr)) (x_nStored : Nat) (x_height : Int) (x_time : Int) (x_index : List String) (x_blockTxs : List String) : State :=
-  { bal := x_bal, supply := x_supply, vals := x_vals, idx := x_idx, prev := x_prev, prevTot := x_prevTot, queue := x_queue, sign := x_sign, missedBits := x_missedBits, awards := x_awards, burns := x_burns, proposer := x_proposer, rel := x_rel, p := x_p, acl := x_acl, daoOwner := x_daoOwner, pool := x_pool, feeAcc := x_feeAcc, posAcc := x_posAcc, daoAcc := x_daoAcc, keys := x_keys, nStored := x_nStored, height := x_height, time := x_time, index := x_index, blockTxs := x_blockTxs, cHeight := 0, cTime := 0 }
+def mk0 (x_bal : List (Addr × Int)) (x_supply : Int) (x_vals : List (Addr × Val)) (x_idx : List (Int × Addr)) (x_prev : List (Addr × Int)) (x_prevTot : Int) (x_queue : List (Int × List Addr)) (x_sign : List (Addr × Sign)) (x_missedBits : List ((Addr × Int) × Bool)) (x_awards : List (Addr × Int)) (x_burns : List (Addr × Int)) (x_proposer : Addr) (x_rel : List Addr) (x_p : Params) (x_acl : List (String × Addr)) (x_daoOwner : Addr) (x_pool : Addr) (x_feeAcc : Addr) (x_posAcc : Addr) (x_daoAcc : Addr) (x_keys : List (Nat × Addr)) (x_nStored : Nat) (x_height : Int) (x_time : Int) (x_index : List String) (x_blockTxs : List String) (x_bal2 : List (Addr × Int)) (x_supply2 : Int) : State :=
+  { bal := x_bal, supply := x_supply, vals := x_vals, idx := x_idx, prev := x_prev, prevTot := x_prevTot, queue := x_queue, sign := x_sign, missedBits := x_missedBits, awards := x_awards, burns := x_burns, proposer := x_proposer, rel := x_rel, p := x_p, acl := x_acl, daoOwner := x_daoOwner, pool := x_pool, feeAcc := x_feeAcc, posAcc := x_posAcc, daoAcc := x_daoAcc, keys := x_keys, nStored := x_nStored, height := x_height, time := x_time, index := x_index, blockTxs := x_blockTxs, cHeight := 0, cTime := 0, bal2 := x_bal2, supply2 := x_supply2 }
 section mk0
-variable (x_bal : List (Addr × Int)) (x_supply : Int) (x_vals : List (Addr × Val)) (x_idx : List (Int × Addr)) (x_prev : List (Addr × Int)) (x_prevTot : Int) (x_queue : List (Int × List Addr)) (x_sign : List (Addr × Sign)) (x_missedBits : List ((Addr × Int) × Bool)) (x_awards : List (Addr × Int)) (x_burns : List (Addr × Int)) (x_proposer : Addr) (x_rel : List Addr) (x_p : Params) (x_acl : List (String × Addr)) (x_daoOwner : Addr) (x_pool : Addr) (x_feeAcc : Addr) (x_posAcc : Addr) (x_daoAcc : Addr) (x_keys : List (Nat × Addr)) (x_nStored : Nat) (x_height : Int) (x_time : Int) (x_index : List String) (x_blockTxs : List String) (x_cHeight x_cTime : Int)
+variable (x_bal : List (Addr × Int)) (x_supply : Int) (x_vals : List (Addr × Val)) (x_idx : List (Int × Addr)) (x_prev : List (Addr × Int)) (x_prevTot : Int) (x_queue : List (Int × List Addr)) (x_sign : List (Addr × Sign)) (x_missedBits : List ((Addr × Int) × Bool)) (x_awards : List (Addr × Int)) (x_burns : List (Addr × Int)) (x_proposer : Addr) (x_rel : List Addr) (x_p : Params) (x_acl : List (String × Addr)) (x_daoOwner : Addr) (x_pool : Addr) (x_feeAcc : Addr) (x_posAcc : Addr) (x_daoAcc : Addr) (x_keys : List (Nat × Addr)) (x_nStored : Nat) (x_height : Int) (x_time : Int) (x_index : List String) (x_blockTxs : List String) (x_bal2 : List (Addr × Int)) (x_supply2 : Int) (x_cHeight x_cTime : Int)
 theorem mk_eq :
-    State.mk x_bal x_supply x_vals x_idx x_prev x_prevTot x_queue x_sign x_missedBits x_awards x_burns x_proposer x_rel x_p x_acl x_daoOwner x_pool x_feeAcc x_posAcc x_daoAcc x_keys x_nStored x_height x_time x_cHeight x_cTime x_index x_blockTxs =
-      setCH (mk0 x_bal x_supply x_vals x_idx x_prev x_prevTot x_queue x_sign x_missedBits x_awards x_burns x_proposer x_rel x_p x_acl x_daoOwner x_pool x_feeAcc x_posAcc x_daoAcc x_keys x_nStored x_height x_time x_index x_blockTxs) x_cHeight x_cTime := rfl
-@[simp] theorem mk0_bal : (mk0 x_bal x_supply x_vals x_idx x_prev x_prevTot x_queue x_sign x_missedBits x_awards x_burns x_proposer x_rel x_p x_acl x_daoOwner x_pool x_feeAcc x_posAcc x_daoAcc x_keys x_nStored x_height x_time x_index x_blockTxs).bal = x_bal := rfl
-@[simp] theorem mk0_supply : (mk0 x_bal x_supply x_vals x_idx x_prev x_prevTot x_queue x_sign x_missedBits x_awards x_burns x_proposer x_rel x_p x_acl x_daoOwner x_pool x_feeAcc x_posAcc x_daoAcc x_keys x_nStored x_height x_time x_index x_blockTxs).supply = x_supply := rfl
-@[simp] theorem mk0_vals : (mk0 x_bal x_supply x_vals x_idx x_prev x_prevTot x_queue x_sign x_missedBits x_awards x_burns x_proposer x_rel x_p x_acl x_daoOwner x_pool x_feeAcc x_posAcc x_daoAcc x_keys x_nStored x_height x_time x_index x_blockTxs).vals = x_vals := rfl
-@[simp] theorem mk0_idx : (mk0 x_bal x_supply x_vals x_idx x_prev x_prevTot x_queue x_sign x_missedBits x_awards x_burns x_proposer x_rel x_p x_acl x_daoOwner x_pool x_feeAcc x_posAcc x_daoAcc x_keys x_nStored x_height x_time x_index x_blockTxs).idx = x_idx := rfl
-@[simp] theorem mk0_prev : (mk0 x_bal x_supply x_vals x_idx x_prev x_prevTot x_queue x_sign x_missedBits x_awards x_burns x_proposer x_rel x_p x_acl x_daoOwner x_pool x_feeAcc x_posAcc x_daoAcc x_keys x_nStored x_height x_time x_index x_blockTxs).prev = x_prev := rfl
-@[simp] theorem mk0_prevTot : (mk0 x_bal x_supply x_vals x_idx x_prev x_prevTot x_queue x_sign x_missedBits x_awards x_burns x_proposer x_rel x_p x_acl x_daoOwner x_pool x_feeAcc x_posAcc x_daoAcc x_keys x_nStored x_height x_time x_index x_blockTxs).prevTot = x_prevTot := rfl
-@[simp] theorem mk0_queue : (mk0 x_bal x_supply x_vals x_idx x_prev x_prevTot x_queue x_sign x_missedBits x_awards x_burns x_proposer x_rel x_p x_acl x_daoOwner x_pool x_feeAcc x_posAcc x_daoAcc x_keys x_nStored x_height x_time x_index x_blockTxs).queue = x_queue := rfl
-@[simp] theorem mk0_sign : (mk0 x_bal x_supply x_vals x_idx x_prev x_prevTot x_queue x_sign x_missedBits x_awards x_burns x_proposer x_rel x_p x_acl x_daoOwner x_pool x_feeAcc x_posAcc x_daoAcc x_keys x_nStored x_height x_time x_index x_blockTxs).sign = x_sign := rfl
-@[simp] theorem mk0_missedBits : (mk0 x_bal x_supply x_vals x_idx x_prev x_prevTot x_queue x_sign x_missedBits x_awards x_burns x_proposer x_rel x_p x_acl x_daoOwner x_pool x_feeAcc x_posAcc x_daoAcc x_keys x_nStored x_height x_time x_index x_blockTxs).missedBits = x_missedBits := rfl
-@[simp] theorem mk0_awards : (mk0 x_bal x_supply x_vals x_idx x_prev x_prevTot x_queue x_sign x_missedBits x_awards x_burns x_proposer x_rel x_p x_acl x_daoOwner x_pool x_feeAcc x_posAcc x_daoAcc x_keys x_nStored x_height x_time x_index x_blockTxs).awards = x_awards := rfl
-@[simp] theorem mk0_burns : (mk0 x_bal x_supply x_vals x_idx x_prev x_prevTot x_queue x_sign x_missedBits x_awards x_burns x_proposer x_rel x_p x_acl x_daoOwner x_pool x_feeAcc x_posAcc x_daoAcc x_keys x_nStored x_height x_time x_index x_blockTxs).burns = x_burns := rfl
-@[simp] theorem mk0_proposer : (mk0 x_bal x_supply x_vals x_idx x_prev x_prevTot x_queue x_sign x_missedBits x_awards x_burns x_proposer x_rel x_p x_acl x_daoOwner x_pool x_feeAcc x_posAcc x_daoAcc x_keys x_nStored x_height x_time x_index x_blockTxs).proposer = x_proposer := rfl
-@[simp] theorem mk0_rel : (mk0 x_bal x_supply x_vals x_idx x_prev x_prevTot x_queue x_sign x_missedBits x_awards x_burns x_proposer x_rel x_p x_acl x_daoOwner x_pool x_feeAcc x_posAcc x_daoAcc x_keys x_nStored x_height x_time x_index x_blockTxs).rel = x_rel := rfl
-@[simp] theorem mk0_p : (mk0 x_bal x_supply x_vals x_idx x_prev x_prevTot x_queue x_sign x_missedBits x_awards x_burns x_proposer x_rel x_p x_acl x_daoOwner x_pool x_feeAcc x_posAcc x_daoAcc x_keys x_nStored x_height x_time x_index x_blockTxs).p = x_p := rfl
-@[simp] theorem mk0_acl : (mk0 x_bal x_supply x_vals x_idx x_prev x_prevTot x_queue x_sign x_missedBits x_awards x_burns x_proposer x_rel x_p x_acl x_daoOwner x_pool x_feeAcc x_posAcc x_daoAcc x_keys x_nStored x_height x_time x_index x_blockTxs).acl = x_acl := rfl
-@[simp] theorem mk0_daoOwner : (mk0 x_bal x_supply x_vals x_idx x_prev x_prevTot x_queue x_sign x_missedBits x_awards x_burns x_proposer x_rel x_p x_acl x_daoOwner x_pool x_feeAcc x_posAcc x_daoAcc x_keys x_nStored x_height x_time x_index x_blockTxs).daoOwner = x_daoOwner := rfl
-@[simp] theorem mk0_pool : (mk0 x_bal x_supply x_vals x_idx x_prev x_prevTot x_queue x_sign x_missedBits x_awards x_burns x_proposer x_rel x_p x_acl x_daoOwner x_pool x_feeAcc x_posAcc x_daoAcc x_keys x_nStored x_height x_time x_index x_blockTxs).pool = x_pool := rfl
-@[simp] theorem mk0_feeAcc : (mk0 x_bal x_supply x_vals x_idx x_prev x_prevTot x_queue x_sign x_missedBits x_awards x_burns x_proposer x_rel x_p x_acl x_daoOwner x_pool x_feeAcc x_posAcc x_daoAcc x_keys x_nStored x_height x_time x_index x_blockTxs).feeAcc = x_feeAcc := rfl
-@[simp] theorem mk0_posAcc : (mk0 x_bal x_supply x_vals x_idx x_prev x_prevTot x_queue x_sign x_missedBits x_awards x_burns x_proposer x_rel x_p x_acl x_daoOwner x_pool x_feeAcc x_posAcc x_daoAcc x_keys x_nStored x_height x_time x_index x_blockTxs).posAcc = x_posAcc := rfl
-@[simp] theorem mk0_daoAcc : (mk0 x_bal x_supply x_vals x_idx x_prev x_prevTot x_queue x_sign x_missedBits x_awards x_burns x_proposer x_rel x_p x_acl x_daoOwner x_pool x_feeAcc x_posAcc x_daoAcc x_keys x_nStored x_height x_time x_index x_blockTxs).daoAcc = x_daoAcc := rfl
-@[simp] theorem mk0_keys : (mk0 x_bal x_supply x_vals x_idx x_prev x_prevTot x_queue x_sign x_missedBits x_awards x_burns x_proposer x_rel x_p x_acl x_daoOwner x_pool x_feeAcc x_posAcc x_daoAcc x_keys x_nStored x_height x_time x_index x_blockTxs).keys = x_keys := rfl
-@[simp] theorem mk0_nStored : (mk0 x_bal x_supply x_vals x_idx x_prev x_prevTot x_queue x_sign x_missedBits x_awards x_burns x_proposer x_rel x_p x_acl x_daoOwner x_pool x_feeAcc x_posAcc x_daoAcc x_keys x_nStored x_height x_time x_index x_blockTxs).nStored = x_nStored := rfl
-@[simp] theorem mk0_height : (mk0 x_bal x_supply x_vals x_idx x_prev x_prevTot x_queue x_sign x_missedBits x_awards x_burns x_proposer x_rel x_p x_acl x_daoOwner x_pool x_feeAcc x_posAcc x_daoAcc x_keys x_nStored x_height x_time x_index x_blockTxs).height = x_height := rfl
-@[simp] theorem mk0_time : (mk0 x_bal x_supply x_vals x_idx x_prev x_prevTot x_queue x_sign x_missedBits x_awards x_burns x_proposer x_rel x_p x_acl x_daoOwner x_pool x_feeAcc x_posAcc x_daoAcc x_keys x_nStored x_height x_time x_index x_blockTxs).time = x_time := rfl
-@[simp] theorem mk0_index : (mk0 x_bal x_supply x_vals x_idx x_prev x_prevTot x_queue x_sign x_missedBits x_awards x_burns x_proposer x_rel x_p x_acl x_daoOwner x_pool x_feeAcc x_posAcc x_daoAcc x_keys x_nStored x_height x_time x_index x_blockTxs).index = x_index := rfl
-@[simp] theorem mk0_blockTxs : (mk0 x_bal x_supply x_vals x_idx x_prev x_prevTot x_queue x_sign x_missedBits x_awards x_burns x_proposer x_rel x_p x_acl x_daoOwner x_pool x_feeAcc x_posAcc x_daoAcc x_keys x_nStored x_height x_time x_index x_blockTxs).blockTxs = x_blockTxs := rfl
+    State.mk x_bal x_supply x_vals x_idx x_prev x_prevTot x_queue x_sign x_missedBits x_awards x_burns x_proposer x_rel x_p x_acl x_daoOwner x_pool x_feeAcc x_posAcc x_daoAcc x_keys x_nStored x_height x_time x_cHeight x_cTime x_index x_blockTxs x_bal2 x_supply2 =
+      setCH (mk0 x_bal x_supply x_vals x_idx x_prev x_prevTot x_queue x_sign x_missedBits x_awards x_burns x_proposer x_rel x_p x_acl x_daoOwner x_pool x_feeAcc x_posAcc x_daoAcc x_keys x_nStored x_height x_time x_index x_blockTxs x_bal2 x_supply2) x_cHeight x_cTime := rfl
+@[simp] theorem mk0_bal : (mk0 x_bal x_supply x_vals x_idx x_prev x_prevTot x_queue x_sign x_missedBits x_awards x_burns x_proposer x_rel x_p x_acl x_daoOwner x_pool x_feeAcc x_posAcc x_daoAcc x_keys x_nStored x_height x_time x_index x_blockTxs x_bal2 x_supply2).bal = x_bal := rfl
+@[simp] theorem mk0_supply : (mk0 x_bal x_supply x_vals x_idx x_prev x_prevTot x_queue x_sign x_missedBits x_awards x_burns x_proposer x_rel x_p x_acl x_daoOwner x_pool x_feeAcc x_posAcc x_daoAcc x_keys x_nStored x_height x_time x_index x_blockTxs x_bal2 x_supply2).supply = x_supply := rfl
+@[simp] theorem mk0_vals : (mk0 x_bal x_supply x_vals x_idx x_prev x_prevTot x_queue x_sign x_missedBits x_awards x_burns x_proposer x_rel x_p x_acl x_daoOwner x_pool x_feeAcc x_posAcc x_daoAcc x_keys x_nStored x_height x_time x_index x_blockTxs x_bal2 x_supply2).vals = x_vals := rfl
+@[simp] theorem mk0_idx : (mk0 x_bal x_supply x_vals x_idx x_prev x_prevTot x_queue x_sign x_missedBits x_awards x_burns x_proposer x_rel x_p x_acl x_daoOwner x_pool x_feeAcc x_posAcc x_daoAcc x_keys x_nStored x_height x_time x_index x_blockTxs x_bal2 x_supply2).idx = x_idx := rfl
+@[simp] theorem mk0_prev : (mk0 x_bal x_supply x_vals x_idx x_prev x_prevTot x_queue x_sign x_missedBits x_awards x_burns x_proposer x_rel x_p x_acl x_daoOwner x_pool x_feeAcc x_posAcc x_daoAcc x_keys x_nStored x_height x_time x_index x_blockTxs x_bal2 x_supply2).prev = x_prev := rfl
+@[simp] theorem mk0_prevTot : (mk0 x_bal x_supply x_vals x_idx x_prev x_prevTot x_queue x_sign x_missedBits x_awards x_burns x_proposer x_rel x_p x_acl x_daoOwner x_pool x_feeAcc x_posAcc x_daoAcc x_keys x_nStored x_height x_time x_index x_blockTxs x_bal2 x_supply2).prevTot = x_prevTot := rfl
+@[simp] theorem mk0_queue : (mk0 x_bal x_supply x_vals x_idx x_prev x_prevTot x_queue x_sign x_missedBits x_awards x_burns x_proposer x_rel x_p x_acl x_daoOwner x_pool x_feeAcc x_posAcc x_daoAcc x_keys x_nStored x_height x_time x_index x_blockTxs x_bal2 x_supply2).queue = x_queue := rfl
+@[simp] theorem mk0_sign : (mk0 x_bal x_supply x_vals x_idx x_prev x_prevTot x_queue x_sign x_missedBits x_awards x_burns x_proposer x_rel x_p x_acl x_daoOwner x_pool x_feeAcc x_posAcc x_daoAcc x_keys x_nStored x_height x_time x_index x_blockTxs x_bal2 x_supply2).sign = x_sign := rfl
+@[simp] theorem mk0_missedBits : (mk0 x_bal x_supply x_vals x_idx x_prev x_prevTot x_queue x_sign x_missedBits x_awards x_burns x_proposer x_rel x_p x_acl x_daoOwner x_pool x_feeAcc x_posAcc x_daoAcc x_keys x_nStored x_height x_time x_index x_blockTxs x_bal2 x_supply2).missedBits = x_missedBits := rfl
+@[simp] theorem mk0_awards : (mk0 x_bal x_supply x_vals x_idx x_prev x_prevTot x_queue x_sign x_missedBits x_awards x_burns x_proposer x_rel x_p x_acl x_daoOwner x_pool x_feeAcc x_posAcc x_daoAcc x_keys x_nStored x_height x_time x_index x_blockTxs x_bal2 x_supply2).awards = x_awards := rfl
+@[simp] theorem mk0_burns : (mk0 x_bal x_supply x_vals x_idx x_prev x_prevTot x_queue x_sign x_missedBits x_awards x_burns x_proposer x_rel x_p x_acl x_daoOwner x_pool x_feeAcc x_posAcc x_daoAcc x_keys x_nStored x_height x_time x_index x_blockTxs x_bal2 x_supply2).burns = x_burns := rfl
+@[simp] theorem mk0_proposer : (mk0 x_bal x_supply x_vals x_idx x_prev x_prevTot x_queue x_sign x_missedBits x_awards x_burns x_proposer x_rel x_p x_acl x_daoOwner x_pool x_feeAcc x_posAcc x_daoAcc x_keys x_nStored x_height x_time x_index x_blockTxs x_bal2 x_supply2).proposer = x_proposer := rfl
+@[simp] theorem mk0_rel : (mk0 x_bal x_supply x_vals x_idx x_prev x_prevTot x_queue x_sign x_missedBits x_awards x_burns x_proposer x_rel x_p x_acl x_daoOwner x_pool x_feeAcc x_posAcc x_daoAcc x_keys x_nStored x_height x_time x_index x_blockTxs x_bal2 x_supply2).rel = x_rel := rfl
+@[simp] theorem mk0_p : (mk0 x_bal x_supply x_vals x_idx x_prev x_prevTot x_queue x_sign x_missedBits x_awards x_burns x_proposer x_rel x_p x_acl x_daoOwner x_pool x_feeAcc x_posAcc x_daoAcc x_keys x_nStored x_height x_time x_index x_blockTxs x_bal2 x_supply2).p = x_p := rfl
+@[simp] theorem mk0_acl : (mk0 x_bal x_supply x_vals x_idx x_prev x_prevTot x_queue x_sign x_missedBits x_awards x_burns x_proposer x_rel x_p x_acl x_daoOwner x_pool x_feeAcc x_posAcc x_daoAcc x_keys x_nStored x_height x_time x_index x_blockTxs x_bal2 x_supply2).acl = x_acl := rfl
+@[simp] theorem mk0_daoOwner : (mk0 x_bal x_supply x_vals x_idx x_prev x_prevTot x_queue x_sign x_missedBits x_awards x_burns x_proposer x_rel x_p x_acl x_daoOwner x_pool x_feeAcc x_posAcc x_daoAcc x_keys x_nStored x_height x_time x_index x_blockTxs x_bal2 x_supply2).daoOwner = x_daoOwner := rfl
+@[simp] theorem mk0_pool : (mk0 x_bal x_supply x_vals x_idx x_prev x_prevTot x_queue x_sign x_missedBits x_awards x_burns x_proposer x_rel x_p x_acl x_daoOwner x_pool x_feeAcc x_posAcc x_daoAcc x_keys x_nStored x_height x_time x_index x_blockTxs x_bal2 x_supply2).pool = x_pool := rfl
+@[simp] theorem mk0_feeAcc : (mk0 x_bal x_supply x_vals x_idx x_prev x_prevTot x_queue x_sign x_missedBits x_awards x_burns x_proposer x_rel x_p x_acl x_daoOwner x_pool x_feeAcc x_posAcc x_daoAcc x_keys x_nStored x_height x_time x_index x_blockTxs x_bal2 x_supply2).feeAcc = x_feeAcc := rfl
+@[simp] theorem mk0_posAcc : (mk0 x_bal x_supply x_vals x_idx x_prev x_prevTot x_queue x_sign x_missedBits x_awards x_burns x_proposer x_rel x_p x_acl x_daoOwner x_pool x_feeAcc x_posAcc x_daoAcc x_keys x_nStored x_height x_time x_index x_blockTxs x_bal2 x_supply2).posAcc = x_posAcc := rfl
+@[simp] theorem mk0_daoAcc : (mk0 x_bal x_supply x_vals x_idx x_prev x_prevTot x_queue x_sign x_missedBits x_awards x_burns x_proposer x_rel x_p x_acl x_daoOwner x_pool x_feeAcc x_posAcc x_daoAcc x_keys x_nStored x_height x_time x_index x_blockTxs x_bal2 x_supply2).daoAcc = x_daoAcc := rfl
+@[simp] theorem mk0_keys : (mk0 x_bal x_supply x_vals x_idx x_prev x_prevTot x_queue x_sign x_missedBits x_awards x_burns x_proposer x_rel x_p x_acl x_daoOwner x_pool x_feeAcc x_posAcc x_daoAcc x_keys x_nStored x_height x_time x_index x_blockTxs x_bal2 x_supply2).keys = x_keys := rfl
+@[simp] theorem mk0_nStored : (mk0 x_bal x_supply x_vals x_idx x_prev x_prevTot x_queue x_sign x_missedBits x_awards x_burns x_proposer x_rel x_p x_acl x_daoOwner x_pool x_feeAcc x_posAcc x_daoAcc x_keys x_nStored x_height x_time x_index x_blockTxs x_bal2 x_supply2).nStored = x_nStored := rfl
+@[simp] theorem mk0_height : (mk0 x_bal x_supply x_vals x_idx x_prev x_prevTot x_queue x_sign x_missedBits x_awards x_burns x_proposer x_rel x_p x_acl x_daoOwner x_pool x_feeAcc x_posAcc x_daoAcc x_keys x_nStored x_height x_time x_index x_blockTxs x_bal2 x_supply2).height = x_height := rfl
+@[simp] theorem mk0_time : (mk0 x_bal x_supply x_vals x_idx x_prev x_prevTot x_queue x_sign x_missedBits x_awards x_burns x_proposer x_rel x_p x_acl x_daoOwner x_pool x_feeAcc x_posAcc x_daoAcc x_keys x_nStored x_height x_time x_index x_blockTxs x_bal2 x_supply2).time = x_time := rfl
+@[simp] theorem mk0_index : (mk0 x_bal x_supply x_vals x_idx x_prev x_prevTot x_queue x_sign x_missedBits x_awards x_burns x_proposer x_rel x_p x_acl x_daoOwner x_pool x_feeAcc x_posAcc x_daoAcc x_keys x_nStored x_height x_time x_index x_blockTxs x_bal2 x_supply2).index = x_index := rfl
+@[simp] theorem mk0_blockTxs : (mk0 x_bal x_supply x_vals x_idx x_prev x_prevTot x_queue x_sign x_missedBits x_awards x_burns x_proposer x_rel x_p x_acl x_daoOwner x_pool x_feeAcc x_posAcc x_daoAcc x_keys x_nStored x_height x_time x_index x_blockTxs x_bal2 x_supply2).blockTxs = x_blockTxs := rfl
+@[simp] theorem mk0_bal2 : (mk0 x_bal x_supply x_vals x_idx x_prev x_prevTot x_queue x_sign x_missedBits x_awards x_burns x_proposer x_rel x_p x_acl x_daoOwner x_pool x_feeAcc x_posAcc x_daoAcc x_keys x_nStored x_height x_time x_index x_blockTxs x_bal2 x_supply2).bal2 = x_bal2 := rfl
+@[simp] theorem mk0_supply2 : (mk0 x_bal x_supply x_vals x_idx x_prev x_prevTot x_queue x_sign x_missedBits x_awards x_burns x_proposer x_rel x_p x_acl x_daoOwner x_pool x_feeAcc x_posAcc x_daoAcc x_keys x_nStored x_height x_time x_index x_blockTxs x_bal2 x_supply2).supply2 = x_supply2 := rfl
 end mk0
 
 @[simp] theorem map_map_setCH (o : Option State) (h' t' : Int) :
@@ -279,15 +292,15 @@ macro "ch_fields" : tactic => `(tactic| try dsimp +instances only [
   bal_setCH, supply_setCH, vals_setCH, idx_setCH, prev_setCH, prevTot_setCH, queue_setCH, sign_setCH, missedBits_setCH,
   awards_setCH, burns_setCH, proposer_setCH, rel_setCH, p_setCH, acl_setCH, daoOwner_setCH, pool_setCH, feeAcc_setCH,
   posAcc_setCH, daoAcc_setCH, keys_setCH, nStored_setCH, height_setCH, time_setCH, index_setCH, blockTxs_setCH,
-  cHeight_setCH, cTime_setCH, keyAddr_setCH, balOf_setCH])
+  cHeight_setCH, cTime_setCH, bal2_setCH, supply2_setCH, keyAddr_setCH, balOf_setCH, balOf2_setCH])
 
 open Lean.Parser.Tactic in
 macro "ch_simp" "[" ts:simpLemma,* "]" : tactic => `(tactic| simp +instances only [mk_eq,
   bal_setCH, supply_setCH, vals_setCH, idx_setCH, prev_setCH, prevTot_setCH, queue_setCH, sign_setCH, missedBits_setCH,
   awards_setCH, burns_setCH, proposer_setCH, rel_setCH, p_setCH, acl_setCH, daoOwner_setCH, pool_setCH, feeAcc_setCH,
   posAcc_setCH, daoAcc_setCH, keys_setCH, nStored_setCH, height_setCH, time_setCH, index_setCH, blockTxs_setCH,
-  cHeight_setCH, cTime_setCH, setCH_setCH, map_map_setCH, getD_map_setCH, ite_setCH,
-  keyAddr_setCH, balOf_setCH, setBal_setCH, send_setCH, mint_setCH, burnFrom_setCH, setStaked_setCH, delStaked_setCH, setVal_setCH,
+  cHeight_setCH, cTime_setCH, bal2_setCH, supply2_setCH, setCH_setCH, map_map_setCH, getD_map_setCH, ite_setCH,
+  keyAddr_setCH, balOf_setCH, setBal_setCH, send_setCH, balOf2_setCH, setBal2_setCH, send2_setCH, mint_setCH, burnFrom_setCH, setStaked_setCH, delStaked_setCH, setVal_setCH,
   enqueue_setCH, dequeue_setCH, forceUnstake_setCH, slash_setCH, jail_setCH,
   Option.map_none, Option.map_some, $ts,*])
 
@@ -332,6 +345,15 @@ macro "ch_auto" : tactic => `(tactic| repeat' (first | rfl | contradiction | ch_
   unfold rewardFromFees
   ch_norm []
   cases send _ _ _ _ with
+  | none => rfl
+  | some s1 =>
+    ch_norm []
+    ch_auto
+
+@[simp] theorem rewardFromFees2_setCH : rewardFromFees2 (setCH s h t) = setCH (rewardFromFees2 s) h t := by
+  unfold rewardFromFees2
+  ch_norm []
+  cases send2 _ _ _ _ with
   | none => rfl
   | some s1 =>
     ch_norm []
@@ -412,7 +434,7 @@ theorem dsFold_setCH (evs : List Evidence) (o : Option State) :
 @[simp] theorem beginBlock_setCH (time : Int) (proposer : Addr) (votes : List Vote) (evs : List Evidence) :
     beginBlock (setCH s h t) time proposer votes evs = (beginBlock s time proposer votes evs).map (setCH · h t) := by
   unfold beginBlock
-  ch_norm [rewardFromFees_setCH, mintAwards_setCH, bind_burnValidators_setCH]
+  ch_norm [rewardFromFees_setCH, rewardFromFees2_setCH, mintAwards_setCH, bind_burnValidators_setCH]
   cases Option.bind _ burnValidators with
   | none => rfl
   | some s3 => ch_norm [sigFold_setCH, dsFold_setCH]
